@@ -24,13 +24,22 @@ package main
 //              << >> by a constant or unsigned count; == != < <= > >= (signed on toInt); && || ! with short-circuit
 //              (guards of the right operand are conjoined with the left operand's value); conversions between the integer
 //              types (zero-extension / truncation / reinterpretation); bytes.Compare; big.NewInt, new(big.Int),
-//              Cmp, Sign, Uint64, IsUint64, Add, Sub, Mul, Quo, Div, Exp(x,y,nil), Set, SetUint64, SetInt64 — mutating
+//              Cmp, Sign, Uint64, IsUint64, BitLen, Add, Sub, Mul, Quo, Div, Exp(x,y,nil), Set, SetUint64, SetInt64 — mutating
 //              methods only on a fresh value or on a local that owns a fresh value (no aliasing: `x := y` of pointers,
 //              mutation of parameters / package variables are refused); x.Bytes() / x[:] of a byte array = the bytes;
 //              calls of other translated whole functions that cannot panic
 //   statements := = op= ++ -- on locals / flattened fields (let-rebinding; shadowing refused), var, if / else if / else
 //              with init, return (tuples), blocks, panic(...), binary.LittleEndian.PutUint64(a[:], v) on a local [8]byte.
-//              No loops, switch, goto, defer, closures, break / continue.
+//              Counting loops `for i := a; i < b; i++` / `i <= C` / `for i := a; i > b; i--` / `i >= C` (64-bit counter the body does
+//              not assign, loop-invariant bound, unit step) and `for i[, v] := range xs` over a byte slice / table ↦ a fold
+//              (`Go.forIn`) over the counter's values carrying the locals the body assigns; `continue`, `break`, `return`
+//              inside; nested loops refused. Expression / tagless `switch` without init, fallthrough, break ↦ if-chain.
+//              No goto, defer, closures, labels.
+//   slices     `[]byte` parameters ↦ List Nat; `x[i]` on byte slices / arrays and on package-level tables (`[]int64`,
+//              `[]uint64`, `[]int` composite literals whose elements are in the subset, read at their INITIAL value) with Go's
+//              bounds panic explicit (`Go.oobS` / `Go.oobU`); `len(x)`; a byte element is only compared or widened
+//   helpers    a call of a repository function whose name starts with min / max and that is not in the curated list is
+//              translated on demand (`<pkg>_<Name>`) and refused with the helper's reason when it is outside the subset
 // Results: a function without panic sites ↦ its value; otherwise Go.Res (ok / panic). A FRAGMENT (consecutive statements
 // cut out of a larger function, inputs named by the spec) ↦ Go.Res of its output variables; a `return` inside ↦ exit k.
 
@@ -634,7 +643,7 @@ func (f *trFn) useBig(st *trState, v tval) tval {
 	return v
 }
 
-var bigPure = map[string]bool{"Cmp": true, "Sign": true, "Uint64": true, "IsUint64": true}
+var bigPure = map[string]bool{"Cmp": true, "Sign": true, "Uint64": true, "IsUint64": true, "BitLen": true}
 var bigMut = map[string]int{"Add": 2, "Sub": 2, "Mul": 2, "Quo": 2, "Div": 2, "Exp": 3, "Set": 1, "SetUint64": 1, "SetInt64": 1}
 
 // bigMethod translates recv.M(args) given the receiver's value; returns the value of the call
@@ -1101,6 +1110,8 @@ func (f *trFn) call(st *trState, e *ast.CallExpr) tval {
 				return tval{lean: "(Go.bigUint64 " + r.lean + ")", ty: tU64}
 			case "IsUint64":
 				return tval{lean: "(Go.bigIsUint64 " + r.lean + ")", ty: tBool}
+			case "BitLen":
+				return tval{lean: "(Go.bigBitLen " + r.lean + ")", ty: tInt}
 			}
 		}
 	}
@@ -1985,6 +1996,47 @@ func init() {
 				ok = append(ok, sp.name)
 			}()
 		}
+		// C18 — the page-size guard of EVERY paged getter of rpc/api and rpc/api/embedded (a function with a parameter
+		// `pageSize uint32`): its `if pageSize > …RpcMaxPageSize { return … }` statement, translated; a getter without
+		// such a statement is listed in unguardedPagedGetters
+		var pgNames, pgBad []string
+		for _, dir := range []string{"rpc/api", "rpc/api/embedded"} {
+			p := t.pkg(dir)
+			fns := []string{}
+			for name, fd := range p.funcs {
+				if fd.decl.Body == nil {
+					continue
+				}
+				for _, fl := range fd.decl.Type.Params.List {
+					for _, n := range fl.Names {
+						if n.Name == "pageSize" && t.src(fl.Type) == "uint32" {
+							fns = append(fns, name)
+						}
+					}
+				}
+			}
+			sort.Strings(fns)
+			for _, name := range fns {
+				fd := p.funcs[name]
+				sp := &trSpec{name: leanName("pageGuard_" + strings.ReplaceAll(dir, "/", "_") + "_" + name),
+					file: filepath.Join(dir, filepath.Base(t.fset.File(fd.file.Pos()).Name())), fn: name,
+					from: "if pageSize > ", n: 1, outs: []string{}, ins: []trIn{{"pageSize", "uint32", "pageSize"}}}
+				func() {
+					defer func() {
+						if r := recover(); r != nil {
+							e, isTr := r.(trErr)
+							if !isTr {
+								panic(r)
+							}
+							pgBad = append(pgBad, dir+"."+name+": "+e.msg)
+						}
+					}()
+					d, _ := t.translate(sp)
+					defs = append(defs, d)
+					pgNames = append(pgNames, sp.name)
+				}()
+			}
+		}
 		for _, n := range t.order {
 			ff.raw("%s\n", t.inits[n])
 		}
@@ -2001,6 +2053,15 @@ func init() {
 			}
 			return "[" + strings.Join(s, ", ") + "]"
 		}
+		ff.raw("/-- the translated page-size guards of all paged getters, by name -/\ndef pageGuards : List (String × (BitVec 32 → Go.Res Unit)) := [%s]\n",
+			func() string {
+				l := []string{}
+				for _, n := range pgNames {
+					l = append(l, fmt.Sprintf("(%q, %s)", n, n))
+				}
+				return strings.Join(l, ",\n  ")
+			}())
+		ff.raw("def unguardedPagedGetters : List String := %s\n\n", q(pgBad))
 		ff.raw("def translatedNames : List String := %s\n", q(ok))
 		ff.raw("def untranslatableNames : List String := %s\n", q(bad))
 		ff.raw("\nend ZV.Gen.Translated\nnamespace ZV.Gen\n")
